@@ -886,11 +886,19 @@ def _check_section_name(name: bytes) -> bool:
 def _strip_comments(line: bytes) -> bytes:
     comment_bytes = {ord(b"#"), ord(b";")}
     quote = ord(b'"')
+    backslash = ord(b"\\")
     string_open = False
+    escaped = False
     # Normalize line to bytearray for simple 2/3 compatibility
     for i, character in enumerate(bytearray(line)):
+        if escaped:
+            # A backslash-escaped character (e.g. \") never opens or closes
+            # a string and never starts a comment
+            escaped = False
+        elif character == backslash:
+            escaped = True
         # Comment characters outside balanced quotes denote comment start
-        if character == quote:
+        elif character == quote:
             string_open = not string_open
         elif not string_open and character in comment_bytes:
             return line[:i]
